@@ -71,8 +71,9 @@ func (l *leader) onChangeConfig(t changeConfig) {
 		return
 	}
 
+	lastIndex := l.lastLogIndex
 	l.checkConfigActions(t.task, t.newConf)
-	if l.configs.IsCommitted() {
+	if l.lastLogIndex == lastIndex {
 		if trace {
 			println(l, "no configActions changed")
 		}
